@@ -335,9 +335,11 @@ def get_type_hints(
     # KW_ONLY is a special sentinel to denote kw-only params in a dataclass.
     #  We don't want to do anything with this hint/field. It's not real.
     hints = {f: t for f, t in hints.items() if t is not compat.KW_ONLY}
-    # (Class variables are no fields: a class whose fields are described by its
-    #   constructor alone may still declare some.)
-    if exhaustive and all(isclassvartype(t) for t in hints.values()):
+    # (Class variables are no fields, and neither are private names: a class whose fields
+    #   are described by its constructor alone may still declare some.)
+    if exhaustive and all(
+        f.startswith("_") or isclassvartype(t) for f, t in hints.items()
+    ):
         hints = _hints_from_signature(obj) or hints
     return hints
 
